@@ -493,6 +493,7 @@ func directWork(c workCfg, rendezvous int, patience time.Duration) (oracle, deta
 	case <-done:
 	case <-time.After(patience):
 		in := atomic.LoadInt32(&arrived)
+		poisoned = true
 		return "work/no-deadlock", fmt.Sprintf("Do did not return within %v; %d calls of f in progress, %d of the %d rendezvous items picked up: runners are asleep although items are queued (lost wake-up)", patience, atomic.LoadInt32(&active), in, rendezvous)
 	}
 	if unknown > 0 {
@@ -533,7 +534,9 @@ func directWorkCase(cfgName string, c workCfg, rendezvous int, src string) bool 
 	res.Count("src:" + src)
 	o, d := directWork(c, rendezvous, 8*time.Second)
 	if o == "work/no-deadlock" { // the one timing-dependent oracle: it must repeat, with more patience
-		o, d = directWork(c, rendezvous, 25*time.Second)
+		if o, d = directWork(c, rendezvous, 25*time.Second); o == "" {
+			poisoned = false // slow, not stuck
+		}
 	}
 	if o == "" {
 		return true
@@ -562,13 +565,27 @@ func parseDirectWork(name string) (c workCfg, rendezvous int, ok bool) {
 // ---------------------------------------------------------------- entry points
 
 // directOracles runs everything above for the property at hand.  Returns the names of what ran (for the notes).
-func directOracles(r *common.RNG, thorough bool) []string {
-	var ran []string
+func directOracles(r *common.RNG, thorough bool) (ran []string) {
 	if prop == "C10" {
 		nSeq, nConc, nLong := 120000, 60000, 400000
+		durs := []time.Duration{40 * time.Millisecond, 600 * time.Millisecond, 1100 * time.Millisecond, 2300 * time.Millisecond, 3400 * time.Millisecond, 5600 * time.Millisecond}
 		if thorough {
 			nSeq, nConc, nLong = 1500000, 400000, 1200000
+			durs = append(durs, 11*time.Second, 16*time.Second, 31*time.Second, 61*time.Second)
 		}
+		// computations that take seconds, with concurrent callers of the same key: they only sleep, so they run
+		// alongside everything below and are collected at the end
+		joinSlow := startSlowF(durs, "slow-f")
+		defer func() {
+			joinSlow()
+		}()
+		for fi := range keyFamilies() {
+			if !multiCacheCase(fi, 6+fi, []int{300, 40, 7, 1}[fi], 3, "multi-cache") {
+				break
+			}
+		}
+		ran = append(ran, "multi-cache (6-9 Cache values with the same keys, one after the other and concurrently)",
+			fmt.Sprintf("slow-f (computations of %v with concurrent Do / Get callers of the same key)", durs))
 		for fi := range keyFamilies() {
 			n := nSeq
 			if fi > 0 {
@@ -592,12 +609,23 @@ func directOracles(r *common.RNG, thorough bool) []string {
 		ran = append(ran, "f-crash (the invocation of f panics / calls runtime.Goexit)")
 		return ran
 	}
+	defer func() {
+		if poisoned {
+			ran = append(ran, "(a Do that did not return left goroutines of the package blocked: the remaining scenarios of this process were skipped)")
+		}
+	}()
 	for _, kn := range [][2]int{{3, 4}, {2, 3}, {4, 4}, {7, 8}, {31, 32}, {5, 9}} {
+		if poisoned {
+			return ran
+		}
 		if !directWorkCase(fmt.Sprintf("rendezvous %d %d", kn[0], kn[1]), rendezvousCfg(kn[0], kn[1]), kn[0], "unmodified-rendezvous") {
 			break // one failing input is enough (a hanging Do costs the whole patience of the watchdog)
 		}
 	}
 	for _, fn := range [][2]int{{1100, 1}, {2600, 2}, {5000, 5}, {3000, 64}} {
+		if poisoned {
+			return ran
+		}
 		if !directWorkCase(fmt.Sprintf("backlog %d %d", fn[0], fn[1]), backlogCfg(fn[0], fn[1]), 0, "unmodified-backlog") {
 			break
 		}
@@ -606,13 +634,16 @@ func directOracles(r *common.RNG, thorough bool) []string {
 	if thorough {
 		nRand = 20000
 	}
-	for i := 0; i < nRand; i++ {
+	for i := 0; i < nRand && !poisoned; i++ {
 		c := randWorkCfg(r, 8, 40)
 		if !directWorkCase("cfg "+c.String(), c, 0, "unmodified-random") {
 			break
 		}
 	}
 	ran = append(ran, "rendezvous (sibling items that need each other, n = k+1)", "large backlogs", fmt.Sprintf("%d random item graphs", nRand))
+	if !poisoned {
+		ran = append(ran, directWorkObjects(r, thorough)...)
+	}
 	return ran
 }
 
@@ -641,6 +672,25 @@ func replayDirect(in map[string]string) bool {
 		}
 	case f[0] == "f-crash" && len(f) == 4:
 		fCrashCase(f[1], f[2] == "true", f[3] == "true", "replay")
+	case f[0] == "multi-work" && len(f) == 3:
+		// the sessions of the family from the first one on, in a fresh process; a few hundred more than recorded (what
+		// survives between Work values -- pools, the garbage collector -- need not repeat exactly)
+		seed, _ := strconv.ParseUint(f[1], 10, 64)
+		if n := atoi(f[2]); n > 0 && n <= 1000000 {
+			multiWorkCase(seed, 0, n+300, "replay")
+		}
+	case f[0] == "nested" && len(f) == 7:
+		if c, ok := parseNested(cfg); ok {
+			nestedCase(c, "replay")
+		}
+	case f[0] == "slow-f" && len(f) == 3:
+		if ms, callers := atoi(f[1]), atoi(f[2]); ms > 0 && ms <= 600000 && callers >= 1 && callers <= 64 {
+			startSlowF([]time.Duration{time.Duration(ms) * time.Millisecond}, "replay")()
+		}
+	case f[0] == "multi-cache" && len(f) == 5:
+		if nc, nk, g := atoi(f[2]), atoi(f[3]), atoi(f[4]); nc >= 2 && nc <= 64 && nk >= 1 && nk <= 100000 && g >= 1 && g <= 64 {
+			multiCacheCase(atoi(f[1]), nc, nk, g, "replay")
+		}
 	default:
 		c, rv, ok := parseDirectWork(cfg)
 		if !ok {
